@@ -80,11 +80,14 @@ package dispatch
 //@   ensures [labels-child-wins] len(cr.Labels) != 0 ==> (forall ln model.LabelName :: ln in cr.Labels ==> result.RouteOpts.Labels[ln] == cr.Labels[ln])
 //@   ensures [labels-parent-kept] len(cr.Labels) != 0 ==> (forall ln model.LabelName :: !(ln in cr.Labels) && old(ln in inheritedOpts(parent).Labels) ==> result.RouteOpts.Labels[ln] == old(inheritedOpts(parent).Labels[ln]))
 //@   ensures [parent-untouched] parent != nil ==> parent.RouteOpts == old(parent.RouteOpts)
+//@   ensures [matchers-of-all-three-kinds] len(result.Matchers) == len(cr.Match) + len(cr.MatchRE) + len(cr.Matchers)
+//@   ensures [new-style-matchers-kept] forall i int :: 0 <= i && i < len(cr.Matchers) ==> cr.Matchers[i] in elems(result.Matchers)
+//@   ensures [time-intervals-of-the-route] result.RouteOpts.MuteTimeIntervals == cr.MuteTimeIntervals && result.RouteOpts.ActiveTimeIntervals == cr.ActiveTimeIntervals
 //@   ensures [children] len(result.Routes) == len(cr.Routes) && (forall i int :: 0 <= i && i < len(result.Routes) ==> result.Routes[i] != nil && result.Routes[i].parent == result)
 //@   loop 1 invariant rangeindex < len(cr.GroupBy) && fresh(opts.GroupBy)
 //@   loop 1 invariant forall ln model.LabelName :: (ln in opts.GroupBy) == (exists i int :: 0 <= i && i <= rangeindex && cr.GroupBy[i] == ln)
-//@   loop 2 invariant matchers == nil || fresh(matchers)
-//@   loop 3 invariant matchers == nil || fresh(matchers)
+//@   loop 2 invariant (matchers == nil || fresh(matchers)) && len(matchers) == len(visited) && (forall k string :: (k in visited) ==> (k in cr.Match)) && cr.Match == pre(cr.Match) && dom(cr.Match) == pre(dom(cr.Match))
+//@   loop 3 invariant (matchers == nil || fresh(matchers)) && len(matchers) == len(cr.Match) + len(visited) && (forall k string :: (k in visited) ==> (k in cr.MatchRE)) && cr.MatchRE == pre(cr.MatchRE) && dom(cr.MatchRE) == pre(dom(cr.MatchRE)) && dom(cr.Match) == pre(dom(cr.Match)) && cr.Match == pre(cr.Match)
 //@   assigns deref(counter)
 //@   noeffect sort.Sort
 
@@ -108,13 +111,14 @@ package dispatch
 //@ func (*aggrGroup).insert
 //@   props C14 C06
 //@   requires ag != nil && alert != nil && ag.alerts != nil && ag.alerts.alerts != nil && ag.logger != nil && tracer != nil && ctx != nil
-//@            && store.ErrDestroyed != nil && store.ErrLimited != nil && store.ErrDestroyed != store.ErrLimited && bucketOK(ag.alerts, nameOf(alert))
+//@            && store.ErrDestroyed != nil && store.ErrLimited != nil && store.ErrDestroyed != store.ErrLimited && bucketOK(ag.alerts, nameOf(alert)) && deadEmpty(ag.alerts)
 //@   requires forall f model.Fingerprint :: f in ag.alerts.alerts ==> ag.alerts.alerts[f] != nil
 //@   after call Tracer).Start assume res0 != nil && res1 != nil
 //@   after call errors.Is assume res0 == (ret("SetIfNotOlder") == store.ErrDestroyed)
 //@   ensures [never-older] old(fpA(alert) in ag.alerts.alerts) && old(ag.alerts.alerts[fpA(alert)].UpdatedAt) > alert.UpdatedAt
 //@             ==> result && dom(ag.alerts.alerts) == old(dom(ag.alerts.alerts)) && vals(ag.alerts.alerts) == old(vals(ag.alerts.alerts))
 //@   ensures [monotone] forall f model.Fingerprint :: old(f in ag.alerts.alerts) ==> f in ag.alerts.alerts && ag.alerts.alerts[f].UpdatedAt >= old(ag.alerts.alerts[f].UpdatedAt)
+//@   ensures [destroyed-group-refuses] old(ag.alerts.destroyed) ==> !result
 //@   ensures [refused-only-if-destroyed] !result ==> old(ag.alerts.destroyed) && dom(ag.alerts.alerts) == old(dom(ag.alerts.alerts)) && vals(ag.alerts.alerts) == old(vals(ag.alerts.alerts))
 //@   ensures [inserted] result && ag.alerts.perAlertLimit <= 0 && !old(ag.alerts.destroyed) ==> fpA(alert) in ag.alerts.alerts && ag.alerts.alerts[fpA(alert)].UpdatedAt >= alert.UpdatedAt
 //@   ensures [others] forall f model.Fingerprint :: f != fpA(alert) ==> (f in ag.alerts.alerts) == old(f in ag.alerts.alerts) && ag.alerts.alerts[f] == old(ag.alerts.alerts[f])
